@@ -21,7 +21,7 @@ pub fn run(run: &mut Run) {
         .into();
     run.assumptions = vec!["times and positions are chosen so every f32 intermediate of the implementation is exact".into()];
     run.min_sigs = 60;
-    let n: u64 = if run.thorough() { 300_000 } else { 5_000 };
+    let n: u64 = if run.thorough() { 1_500_000 } else { 60_000 };
     let seed = run.seed;
     let rc = run.replay_case();
     let verbose = rc.is_some();
